@@ -135,7 +135,8 @@ Proof.
   set (cc := if drop then fst (rclear r) else []) in *.
   set (r1 := if drop then snd (rclear r) else r) in *.
   set (q2 := if drop then firstn (it_keep it) q1 else q1) in *.
-  set (last1 := if drop then gmake h w cell_default else last) in *.
+  set (last0 := if drop then gmake h w cell_default else last).
+  set (last1 := if drop || it_resize it then gmake h w cell_default else last) in *.
   set (np2 := if drop then Nat.min (it_keep it) (length q1) else length q1) in *.
   set (sp := if drop then stale_places o h w scr1 q2 last else []) in *.
   set (E2 := if drop then sp else E) in *.
@@ -143,8 +144,8 @@ Proof.
   assert (Hphase : snd (deliver_all o h w scr1 q2) = true
                    /\ np2 = length q2
                    /\ HInv o h w r1 (exec_list o (fst (deliver_all o h w scr1 q2)) cc) E2
-                   /\ back r1 = gmap (resolve o) last1).
-  { unfold sp, E2, q2, np2, r1, cc, last1 in *. destruct drop.
+                   /\ back r1 = gmap (resolve o) last0).
+  { unfold sp, E2, q2, np2, r1, cc, last0 in *. destruct drop.
     - assert (Hc2 : snd (deliver_all o h w scr1 (firstn (it_keep it) q1)) = true).
       { pose proof (deliver_all_split o h w (it_keep it) q1 scr1) as H.
         rewrite H in Hchain1. cbn [snd] in Hchain1. apply andb_true_iff in Hchain1. tauto. }
@@ -162,15 +163,27 @@ Proof.
     - split; [exact Hchain1|]. split; [reflexivity|]. split.
       + rewrite exec_list_nil. exact HI.
       + apply HL. }
-  destruct Hphase as (Hc2 & Hnp2 & HI1 & Hb1).
+  destruct Hphase as (Hc2 & Hnp2 & HI0 & Hb0).
   set (v0 := fst (deliver_all o h w scr1 q2)) in *.
-  destruct (hinv_draw o h w r1 _ E2 (it_draw it) HI1 Hg) as [HI2 Hf2].
-  set (r2 := rdraw r1 (it_draw it)) in *.
+  (* a Resize event: clear() once more, a new renderer that repaints everything *)
+  set (cc2 := if it_resize it then cc ++ fst (rclear r1) else cc) in *.
+  set (r1b := if it_resize it then rnew (rh r1) (rw r1) true else r1) in *.
+  assert (Hres : HInv o h w r1b (exec_list o v0 cc2) E2 /\ back r1b = gmap (resolve o) last1).
+  { unfold cc2, r1b, last1. destruct (it_resize it).
+    - rewrite orb_true_r. split.
+      + pose proof (hinv_step o h w r1 _ E2 Renew Hok HI0 I) as H. cbn [step_size fst snd rstep screen_step] in H.
+        rewrite exec_list_app. exact H.
+      + cbn [rnew back]. rewrite (hi_h _ _ _ _ _ _ HI0), (hi_w _ _ _ _ _ _ HI0).
+        fold (blank_surface h w). rewrite blank_resolved. reflexivity.
+    - rewrite orb_false_r. split; [exact HI0|]. exact Hb0. }
+  destruct Hres as [HI1 Hb1].
+  destruct (hinv_draw o h w r1b _ E2 (it_draw it) HI1 Hg) as [HI2 Hf2].
+  set (r2 := rdraw r1b (it_draw it)) in *.
   assert (Hb2 : back r2 = gmap (resolve o) last1).
-  { unfold r2, rdraw. destruct (grid_dims (it_draw it) (rh r1) (rw r1)); simpl; exact Hb1. }
+  { unfold r2, rdraw. destruct (grid_dims (it_draw it) (rh r1b) (rw r1b)); simpl; exact Hb1. }
   destruct (it_action it).
   - (* a frame *)
-    destruct (frame_chunk o h w r2 _ E2 cc Hok HI2 v0 eq_refl) as [Hck HIn]. rewrite Hf2 in Hck, HIn.
+    destruct (frame_chunk o h w r2 _ E2 cc2 Hok HI2 v0 eq_refl) as [Hck HIn]. rewrite Hf2 in Hck, HIn.
     fold q2. fold sp. fold E2.
     match goal with |- fst (let '(_, _) := ?X in _) = true => destruct X as [ok st] eqn:Erest end.
     cbn [fst snd] in *. cbn [andb].
@@ -191,7 +204,7 @@ Proof.
     cbn [fst snd] in *. cbn [andb].
     replace ok with (fst (ok, st)) by reflexivity. rewrite <- Erest.
     apply IH; auto.
-    destruct cc as [|c0 cc'] eqn:Ecc; cbn [is_nil] in *.
+    destruct cc2 as [|c0 cc'] eqn:Ecc; cbn [is_nil] in *.
     + rewrite exec_list_nil in HIs. constructor; auto.
     + constructor.
       * exact Hs1.
